@@ -141,6 +141,8 @@ func checkC12(t *testing.T, sc Script) *stats.Verdict {
 				for _, r := range oracle.Interpret([]byte(a.Stream), "", oracle.Connection).Retries {
 					if r.Millis > 0 {
 						b = exact(float64(r.Millis) * 1e6)
+					} else {
+						b = exact(e.initial) // "retry: 0": back to the initial interval or to 0 (6.3); project the larger one
 					}
 				}
 			}
